@@ -52,7 +52,7 @@ structure Inv (c : Cfg) (runs : List Run) (st : St) : Prop where
   endIn : ∀ b r, Ev.buildEnd b r ∈ st.trace →
     r = c.res b ∧ (r = .ok → b ∈ st.built) ∧ (r ≠ .ok → b ∈ st.failed)
   envcwd : ∀ b d env r, Ev.buildStart b d env r ∈ st.trace →
-    d = dirOf c.cwd b ∧ ∃ run ∈ runs, run.id = r ∧ env = run.env ∧ b ∈ run.builds
+    d = dirOf c.cwd c.home b ∧ ∃ run ∈ runs, run.id = r ∧ env = run.env ∧ b ∈ run.builds
   failImmWhy : ∀ r ∈ st.failImm, ∃ run ∈ runs, run.id = r ∧ ∃ b ∈ run.builds, b ∈ st.failed
   nob : c.doBuilds = false → ∀ b, starts b st.trace = 0
   before : c.oserrRaises = true ∨ (∀ b, c.res b ≠ .oserr) → IdInj runs →
@@ -68,9 +68,9 @@ theorem inv_init (c : Cfg) (runs : List Run) : Inv c runs {} := by
 def afterBuild (c : Cfg) (st : St) (run : Run) (b : Build) (r : BRes) : St :=
   match r with
   | .ok => { built := b :: st.built, failed := st.failed, failImm := st.failImm,
-             trace := (st.trace ++ [Ev.buildStart b (dirOf c.cwd b) run.env run.id]) ++ [Ev.buildEnd b .ok] }
+             trace := (st.trace ++ [Ev.buildStart b (dirOf c.cwd c.home b) run.env run.id]) ++ [Ev.buildEnd b .ok] }
   | r => { built := st.built, failed := b :: st.failed, failImm := run.id :: st.failImm,
-           trace := (st.trace ++ [Ev.buildStart b (dirOf c.cwd b) run.env run.id]) ++ [Ev.buildEnd b r] }
+           trace := (st.trace ++ [Ev.buildStart b (dirOf c.cwd c.home b) run.env run.id]) ++ [Ev.buildEnd b r] }
 
 theorem processBuild_act {c : Cfg} {st : St} {run : Run} {b : Build}
     (hb : b ∉ st.built) (hf : b ∉ st.failed) :
